@@ -297,10 +297,18 @@ end
 /-- verdict on a whole program: `none` = not in the modelled fragment -/
 def checkProgram (l : List Item) : Option Bool :=
   if l.isEmpty || !listModelled l then none else
-  let text := printList false l ++ [')']
-  match parseProgram text with
-  | some (l', [')']) => some (eqItems l' l)
-  | _ => some false
+  -- half of the programs (by the parity of the printed length) are read back in front of `)` (as inside `$(…)` or a
+  -- subshell: `structure_roundtrip`), the other half with nothing after them (as `List::from_str(printed)` does:
+  -- `structure_roundtrip_at_end_of_input`)
+  let printed := printList false l
+  if printed.length % 2 = 0 then
+    match parseProgram (printed ++ [')']) with
+    | some (l', [')']) => some (eqItems l' l)
+    | _ => some false
+  else
+    match parseProgram printed with
+    | some (l', []) => some (eqItems l' l)
+    | _ => some false
 
 
 /-! ## shape of the closed fragment of `structure_roundtrip_partial` (for counting) -/
